@@ -9,14 +9,32 @@ from .taint import parent_map
 SUMS = {"sum", "sum_axis", "fold_axis", "fold", "reduce", "product"}
 
 
+ASSIGNED = {}    # id(fn body) -> {local: [right-hand sides assigned to it after its declaration]}
+
+
 def let_inits(fn):
     m = {}
+    later = {}
     for n in walk(fn["body"]):
         if n.get("k") == "LetStmt" and n.get("init") is not None:
             bs = list(pat_bindings(n["pat"]))
             for b in bs:
                 m[b["local"]] = n["init"]
+        elif n.get("k") == "Assign":
+            t = peel_refs(n["l"])
+            if t.get("k") == "Path" and "local" in t:
+                later.setdefault(t["local"], []).append(n["r"])
+    ASSIGNED[id(m)] = later
     return m
+
+
+def _has_max_call(c, n):
+    for y in walk(n):
+        if y.get("k") == "MethodCall" and y["name"] == "max":
+            return True
+        if y.get("k") == "Path" and "def" in y and (c.dfn(y["def"]) or {}).get("name") == "max":
+            return True
+    return False
 
 
 def is_max_derived(c, n, inits, depth=0):
@@ -36,6 +54,11 @@ def is_max_derived(c, n, inits, depth=0):
             if is_max_derived(c, inits[x["local"]], inits, depth + 1):
                 return True
     n0 = peel_refs(n)
+    if n0.get("k") == "Path" and "local" in n0:
+        # a running maximum kept in a local: `max = F::max(max, x)` / `if x > max { max = x }` inside a loop
+        for rhs in ASSIGNED.get(id(inits), {}).get(n0["local"], []):
+            if _has_max_call(c, rhs) and any(y.get("k") == "Path" and y.get("local") == n0["local"] for y in walk(rhs)):
+                return True
     if n0.get("k") == "Path" and n0.get("local") in inits:
         return is_max_derived(c, inits[n0["local"]], inits, depth + 1)
     return False
